@@ -2,6 +2,7 @@ package main
 
 import (
 	"fmt"
+	"go/constant"
 	"go/token"
 	"go/types"
 	"sort"
@@ -783,4 +784,436 @@ func (c *Ctx) opTable(fn *ssa.Function) map[int64]*ssa.Function {
 		}
 	}
 	return out
+}
+
+// ---------------------------------------------------------------- OPS4
+
+func boolConst(b bool) aval { return aval{K: aConst, C: constant.MakeBool(b)} }
+
+func avalBool(a aval) (bool, bool) {
+	if a.K != aConst || a.C == nil || a.C.Kind() != constant.Bool {
+		return false, false
+	}
+	return constant.BoolVal(a.C), true
+}
+
+// singleBool: all outcomes return the same constant bool as first result.
+func singleBool(outs []outcome) (bool, string) {
+	if len(outs) == 0 {
+		return false, "no outcome"
+	}
+	var first *bool
+	for _, oc := range outs {
+		if oc.Panic {
+			return false, "panic: " + oc.Why
+		}
+		if len(oc.Vals) == 0 {
+			return false, "no result"
+		}
+		b, ok := avalBool(oc.Vals[0])
+		if !ok {
+			return false, "result not decided by the operands' results (" + oc.Vals[0].String() + ")"
+		}
+		if first != nil && *first != b {
+			return false, "result differs between paths"
+		}
+		bb := b
+		first = &bb
+	}
+	return *first, ""
+}
+
+// OPS4: the connectives and the ordering operators follow their truth tables.
+// BinaryCriteria.Satisfy, NotCriteria.Satisfy and the comparison evaluator are
+// abstractly evaluated with the operands' results injected as constants (every
+// combination), and must return the constant the table prescribes on every path.
+func ruleOPS4(c *Ctx) []Ob {
+	o := newObs(c, "OPS4")
+	andK, ok1 := c.opConst("LogicalAnd")
+	orK, ok2 := c.opConst("LogicalOr")
+	binSat := c.lookupMethod("query", "BinaryCriteria", "Satisfy")
+	notSat := c.lookupMethod("query", "NotCriteria", "Satisfy")
+	if !ok1 || !ok2 || binSat == nil || notSat == nil {
+		o.add(UNDECIDED, "model", "-", "BinaryCriteria/NotCriteria.Satisfy or the connective constants not found")
+		return o.list
+	}
+	isSatisfyOf := func(call *ssa.Call, field string) bool {
+		cc := call.Common()
+		if !cc.IsInvoke() || cc.Method.Name() != "Satisfy" {
+			return false
+		}
+		for _, og := range origins(cc.Value) {
+			if _, f, n := fieldLoad(og); f == field && n != nil && namedPkgPath(n) == c.ModPath+"/query" {
+				return true
+			}
+		}
+		return false
+	}
+	type conn struct {
+		name string
+		k    int64
+		f    func(a, b bool) bool
+	}
+	conns := []conn{
+		{"And", andK, func(a, b bool) bool { return a && b }},
+		{"Or", orK, func(a, b bool) bool { return a || b }},
+	}
+	for _, op := range conns {
+		for _, a := range []bool{false, true} {
+			for _, b := range []bool{false, true} {
+				op, a, b := op, a, b
+				te := c.newTagEval()
+				te.loadHook = func(l *ssa.UnOp) (aval, bool) {
+					if c.isFieldLoadOf(l, "query", "BinaryCriteria", "OpType") {
+						return aval{K: aConst, C: constant.MakeInt64(op.k)}, true
+					}
+					return aval{}, false
+				}
+				te.callHook = func(call *ssa.Call) ([]aval, bool) {
+					if isSatisfyOf(call, "C1") {
+						return []aval{boolConst(a)}, true
+					}
+					if isSatisfyOf(call, "C2") {
+						return []aval{boolConst(b)}, true
+					}
+					return nil, false
+				}
+				got, why := singleBool(te.Eval(binSat, []aval{{}, {}}, 0))
+				key := fmt.Sprintf("%s(%v, %v)", op.name, a, b)
+				switch {
+				case why != "":
+					o.add(UNDECIDED, key, relPath(c, binSat.Pos()), "BinaryCriteria.Satisfy: %s", why)
+				case got != op.f(a, b):
+					o.add(VIOLATED, key, relPath(c, binSat.Pos()), "BinaryCriteria.Satisfy returns %v for %s of %v and %v", got, op.name, a, b)
+				default:
+					o.add(OK, key, relPath(c, binSat.Pos()), "= %v", got)
+				}
+			}
+		}
+	}
+	for _, a := range []bool{false, true} {
+		a := a
+		te := c.newTagEval()
+		te.callHook = func(call *ssa.Call) ([]aval, bool) {
+			if isSatisfyOf(call, "C") {
+				return []aval{boolConst(a)}, true
+			}
+			return nil, false
+		}
+		got, why := singleBool(te.Eval(notSat, []aval{{}, {}}, 0))
+		key := fmt.Sprintf("Not(%v)", a)
+		switch {
+		case why != "":
+			o.add(UNDECIDED, key, relPath(c, notSat.Pos()), "NotCriteria.Satisfy: %s", why)
+		case got != !a:
+			o.add(VIOLATED, key, relPath(c, notSat.Pos()), "NotCriteria.Satisfy returns %v for Not(%v)", got, a)
+		default:
+			o.add(OK, key, relPath(c, notSat.Pos()), "= %v", got)
+		}
+	}
+	// the connective builders construct what they are named after
+	for _, b := range []struct {
+		name string
+		k    int64
+	}{{"and", andK}, {"or", orK}} {
+		f := c.lookupFunc("query", b.name)
+		key := "builder " + b.name
+		if f == nil {
+			o.add(INFO, key, "-", "builder function not found by name (connectives are checked at their evaluation)")
+			continue
+		}
+		okb := false
+		for _, ret := range returnsOf(f) {
+			rv, ok := returnedValue(ret, 0)
+			if !ok {
+				continue
+			}
+			ln := c.describeLiteral(rv, 0)
+			if ln == nil || ln.Type != "BinaryCriteria" {
+				continue
+			}
+			got, stored := ln.Fields["OpType"]
+			if (stored && got == fmt.Sprintf("const %d", b.k)) || (!stored && b.k == 0) {
+				okb = true
+			}
+		}
+		if okb {
+			o.add(OK, key, relPath(c, f.Pos()), "builds a BinaryCriteria with the matching connective")
+		} else {
+			o.add(VIOLATED, key, relPath(c, f.Pos()), "the %s builder does not construct a BinaryCriteria with connective %s", b.name, b.name)
+		}
+	}
+	// ordering operators: the relation applied to the three-way comparison result
+	sat := c.lookupMethod("query", "UnaryCriteria", "Satisfy")
+	cmp := c.lookupFunc("internal", "Compare")
+	norm := c.lookupFunc("internal", "Normalize")
+	hasM := c.lookupMethod("document", "Document", "Has")
+	if sat != nil && cmp != nil {
+		rel := map[string]func(r int64) bool{
+			"GtOp": func(r int64) bool { return r > 0 }, "GtEqOp": func(r int64) bool { return r >= 0 },
+			"LtOp": func(r int64) bool { return r < 0 }, "LtEqOp": func(r int64) bool { return r <= 0 },
+			"EqOp": func(r int64) bool { return r == 0 },
+		}
+		var names []string
+		for n := range rel {
+			names = append(names, n)
+		}
+		sort.Strings(names)
+		for _, name := range names {
+			k, okk := c.opConst(name)
+			if !okk {
+				continue
+			}
+			for _, r := range []int64{-1, 0, 1} {
+				name, k, r := name, k, r
+				te := c.newTagEval()
+				te.loadHook = func(l *ssa.UnOp) (aval, bool) {
+					if c.isFieldLoadOf(l, "query", "UnaryCriteria", "OpType") {
+						return aval{K: aConst, C: constant.MakeInt64(k)}, true
+					}
+					return aval{}, false
+				}
+				te.callHook = func(call *ssa.Call) ([]aval, bool) {
+					g := staticCallee(call)
+					if g == nil {
+						return nil, false
+					}
+					g = c.declared(g)
+					switch g {
+					case cmp:
+						return []aval{{K: aConst, C: constant.MakeInt64(r)}}, true
+					case norm:
+						return []aval{{}, {K: aTag, Tag: nil}}, true
+					case hasM:
+						return []aval{boolConst(true)}, true
+					}
+					return nil, false
+				}
+				got, why := singleBool(te.Eval(sat, []aval{{K: aConst}, {}}, 0))
+				key := fmt.Sprintf("%s with compare = %d", name, r)
+				switch {
+				case why != "":
+					o.add(UNDECIDED, key, relPath(c, sat.Pos()), "UnaryCriteria.Satisfy: %s", why)
+				case got != rel[name](r):
+					o.add(VIOLATED, key, relPath(c, sat.Pos()), "a field present in the document and comparing %d with the operand gives %v for %s", r, got, name)
+				default:
+					o.add(OK, key, relPath(c, sat.Pos()), "= %v", got)
+				}
+			}
+		}
+	}
+	return o.list
+}
+
+// ---------------------------------------------------------------- OPS5
+
+// elementIndex: v is (derived from) an element s[i] of a slice for which
+// isSlice(s) holds; returns the abstract value of i in the current frame.
+func elementIndex(v ssa.Value, isSlice func(ssa.Value) bool, val func(ssa.Value) aval, depth int) (int64, bool) {
+	if v == nil || depth > 8 {
+		return 0, false
+	}
+	switch x := v.(type) {
+	case *ssa.UnOp:
+		if ia, ok := x.X.(*ssa.IndexAddr); ok && isSlice(ia.X) {
+			return constIntOf(val(ia.Index))
+		}
+		return elementIndex(x.X, isSlice, val, depth+1)
+	case *ssa.Extract:
+		return elementIndex(x.Tuple, isSlice, val, depth+1)
+	case *ssa.Call:
+		for _, a := range x.Common().Args {
+			if i, ok := elementIndex(a, isSlice, val, depth+1); ok {
+				return i, true
+			}
+		}
+	case *ssa.MakeInterface:
+		return elementIndex(x.X, isSlice, val, depth+1)
+	case *ssa.ChangeInterface:
+		return elementIndex(x.X, isSlice, val, depth+1)
+	case *ssa.Phi:
+		for _, e := range x.Edges {
+			if i, ok := elementIndex(e, isSlice, val, depth+1); ok {
+				return i, true
+			}
+		}
+	}
+	return 0, false
+}
+
+// OPS5: the list operators and the presence operators follow their definitions,
+// decided by abstract evaluation of UnaryCriteria.Satisfy over every equality
+// pattern between the listed operands and the document's values, for operand
+// lists and arrays of length 1 and 2:
+//   In(v1..vm)        <=> some vi compares equal to the field's value
+//   Contains(e1..em)  <=> every ei compares equal to some element of the array field
+//   Eq                <=> the field is present and compares equal; Exists <=> present
+func ruleOPS5(c *Ctx) []Ob {
+	o := newObs(c, "OPS5")
+	sat := c.lookupMethod("query", "UnaryCriteria", "Satisfy")
+	cmp := c.lookupFunc("internal", "Compare")
+	norm := c.lookupFunc("internal", "Normalize")
+	hasM := c.lookupMethod("document", "Document", "Has")
+	getM := c.lookupMethod("document", "Document", "Get")
+	if sat == nil || cmp == nil || hasM == nil || getM == nil {
+		o.add(UNDECIDED, "model", "-", "UnaryCriteria.Satisfy / internal.Compare / Document.Has/Get not found")
+		return o.list
+	}
+	sliceT := types.NewSlice(types.NewInterfaceType(nil, nil))
+	// the operand list: a []interface{} obtained from UnaryCriteria.Value
+	isOperandList := func(v ssa.Value) bool {
+		for _, og := range origins(v) {
+			ta, ok := og.(*ssa.TypeAssert)
+			if !ok {
+				continue
+			}
+			for _, o2 := range origins(ta.X) {
+				if c.isFieldLoadOf(o2, "query", "UnaryCriteria", "Value") {
+					return true
+				}
+			}
+		}
+		return false
+	}
+	// the array field: a []interface{} obtained from Document.Get
+	isDocArray := func(v ssa.Value) bool {
+		for _, og := range origins(v) {
+			var x ssa.Value
+			switch t := og.(type) {
+			case *ssa.Extract:
+				if ta, ok := t.Tuple.(*ssa.TypeAssert); ok {
+					x = ta.X
+				}
+			case *ssa.TypeAssert:
+				x = t.X
+			}
+			if x == nil {
+				continue
+			}
+			for _, o2 := range origins(x) {
+				if call, ok := o2.(*ssa.Call); ok && staticCallee(call) != nil && c.declared(staticCallee(call)) == getM {
+					return true
+				}
+			}
+		}
+		return false
+	}
+	eval := func(op int64, m, n int, has bool, docIsArray bool, eq func(i, j int64) bool) (bool, string) {
+		te := c.newTagEval()
+		te.maxVisits = 8
+		te.loadHook = func(l *ssa.UnOp) (aval, bool) {
+			if c.isFieldLoadOf(l, "query", "UnaryCriteria", "OpType") {
+				return aval{K: aConst, C: constant.MakeInt64(op)}, true
+			}
+			return aval{}, false
+		}
+		te.callHookEnv = func(call *ssa.Call, val func(ssa.Value) aval) ([]aval, bool) {
+			cc := call.Common()
+			if b, ok := cc.Value.(*ssa.Builtin); ok && b.Name() == "len" {
+				if isOperandList(cc.Args[0]) {
+					return []aval{{K: aConst, C: constant.MakeInt64(int64(m))}}, true
+				}
+				if isDocArray(cc.Args[0]) {
+					return []aval{{K: aConst, C: constant.MakeInt64(int64(n))}}, true
+				}
+				return nil, false
+			}
+			g := staticCallee(call)
+			if g == nil {
+				return nil, false
+			}
+			switch c.declared(g) {
+			case norm:
+				return []aval{{}, {K: aTag, Tag: nil}}, true
+			case hasM:
+				return []aval{boolConst(has)}, true
+			case getM:
+				if docIsArray {
+					return []aval{tagOf(sliceT)}, true
+				}
+				return []aval{{K: aConcrete}}, true
+			case cmp:
+				var i, j int64
+				for _, a := range cc.Args {
+					if x, ok := elementIndex(a, isOperandList, val, 0); ok {
+						i = x
+					}
+					if x, ok := elementIndex(a, isDocArray, val, 0); ok {
+						j = x
+					}
+				}
+				r := int64(1)
+				if eq(i, j) {
+					r = 0
+				}
+				return []aval{{K: aConst, C: constant.MakeInt64(r)}}, true
+			}
+			return nil, false
+		}
+		return singleBool(te.Eval(sat, []aval{{K: aConst}, {}}, 0))
+	}
+	pos := relPath(c, sat.Pos())
+	report := func(key string, got bool, why string, want bool, what string) {
+		switch {
+		case why != "":
+			o.add(UNDECIDED, key, pos, "%s: %s", what, why)
+		case got != want:
+			o.add(VIOLATED, key, pos, "%s evaluates to %v, its definition gives %v", what, got, want)
+		default:
+			o.add(OK, key, pos, "= %v", got)
+		}
+	}
+	if k, ok := c.opConst("InOp"); ok {
+		for m := 1; m <= 2; m++ {
+			for mask := 0; mask < 1<<uint(m); mask++ {
+				mask := mask
+				want := mask != 0
+				got, why := eval(k, m, 1, true, false, func(i, _ int64) bool { return mask&(1<<uint(i)) != 0 })
+				key := fmt.Sprintf("In: %d operands, equal pattern %0*b", m, m, mask)
+				report(key, got, why, want, fmt.Sprintf("In with %d listed values of which the field equals pattern %0*b", m, m, mask))
+			}
+		}
+	}
+	if k, ok := c.opConst("ContainsOp"); ok {
+		for m := 1; m <= 2; m++ {
+			for n := 1; n <= 2; n++ {
+				for mask := 0; mask < 1<<uint(m*n); mask++ {
+					m, n, mask := m, n, mask
+					eq := func(i, j int64) bool { return mask&(1<<uint(int(i)*n+int(j))) != 0 }
+					want := true
+					for i := 0; i < m; i++ {
+						found := false
+						for j := 0; j < n; j++ {
+							if eq(int64(i), int64(j)) {
+								found = true
+							}
+						}
+						if !found {
+							want = false
+						}
+					}
+					got, why := eval(k, m, n, true, true, eq)
+					key := fmt.Sprintf("Contains: %d listed, array of %d, equality matrix %0*b", m, n, m*n, mask)
+					report(key, got, why, want, fmt.Sprintf("Contains with %d listed elements against an array of %d (equality matrix %0*b)", m, n, m*n, mask))
+				}
+			}
+		}
+	}
+	if k, ok := c.opConst("EqOp"); ok {
+		for _, has := range []bool{false, true} {
+			for _, e := range []bool{false, true} {
+				has, e := has, e
+				got, why := eval(k, 1, 1, has, false, func(_, _ int64) bool { return e })
+				report(fmt.Sprintf("Eq: field present=%v equal=%v", has, e), got, why, has && e, fmt.Sprintf("Eq on a field that is present=%v and equal=%v", has, e))
+			}
+		}
+	}
+	if k, ok := c.opConst("ExistsOp"); ok {
+		for _, has := range []bool{false, true} {
+			has := has
+			got, why := eval(k, 1, 1, has, false, func(_, _ int64) bool { return false })
+			report(fmt.Sprintf("Exists: field present=%v", has), got, why, has, fmt.Sprintf("Exists on a field that is present=%v", has))
+		}
+	}
+	return o.list
 }
